@@ -379,6 +379,12 @@ class Module:
                 self.subs[name] = (args, decls, [b for b in body if b[0] not in ("decl", "decl_misc")])
 
     def block(self, stmts, i, enders):
+        out, i, how = self._block(stmts, i, enders)
+        return out, i
+
+    def _block(self, stmts, i, enders):
+        """Returns (statements, next index, how): how == "end" when the block was closed by its END (index past it),
+        "arm" when it stopped AT an else / else if of the enclosing if block."""
         out = []
         while True:
             if i >= len(stmts):
@@ -386,28 +392,23 @@ class Module:
             s = stmts[i]
             i += 1
             if s[0] == "end" and s[1] in enders:
-                return out, i
+                return out, i, "end"
             if s[0] in ("else", "elseif") and "if" in enders:
-                return out, i - 1
+                return out, i - 1, "arm"
             if s[0] == "if":
                 arms = []
                 cond = s[1]
                 while True:
-                    body, i = self.block(stmts, i, ("if",))
+                    body, i, how = self._block(stmts, i, ("if",))
                     arms.append((cond, body))
-                    nxt = stmts[i - 1] if stmts[i - 1][0] == "end" else stmts[i]
-                    if nxt[0] == "elseif":
-                        cond = nxt[1]
-                        i += 1
-                        continue
-                    if nxt[0] == "else":
-                        cond = None
-                        i += 1
-                        continue
-                    break
+                    if how == "end":
+                        break
+                    nxt = stmts[i]
+                    cond = nxt[1] if nxt[0] == "elseif" else None
+                    i += 1
                 out.append(("ifblock", arms))
             elif s[0] == "do":
-                body, i = self.block(stmts, i, ("do",))
+                body, i, _ = self._block(stmts, i, ("do",))
                 out.append(("doblock", s[1], s[2], s[3], body))
             else:
                 out.append(s)
